@@ -158,6 +158,11 @@ def _rename_patch(prog: list, name: str) -> list:
 
 def check_wellformed(res: Res, rng: random.Random, recs: list[dict], delta: int, plan_: dict) -> None:
     raw = ips.build(recs)
+    if plan_.get("tail"):
+        # what patch tools write behind the end marker (the 3-byte truncation length of Lunar IPS, the metadata of EBP patches): the records
+        # end at the marker, the file is as well-formed as without it (interpretation recorded in DESIGN 7.3)
+        raw += {"truncate": b"\x20\x00\x00", "metadata": b'{"title": "fix", "author": "x"}', "two": b"\x00\x01", "eof_again": b"EOF"}[plan_["tail"]]
+        res.count("files_with_bytes_behind_the_end_marker")
     p1 = build_program(rng, delta, True, plan_)
     p1["files"] = {"p.ips": raw}
     name = plan_.get("name", "p.ips")
@@ -291,6 +296,8 @@ def run_shard(shard: dict) -> Res:
         plan_ = {"place": rng.choice(PLACES), "start": rng.choice([0x8000, 0x018000, 0x02C000])}
         if rng.random() < 0.3:
             plan_["name"] = rng.choice(PATCH_NAMES)
+        if rng.random() < 0.1:
+            plan_["tail"] = rng.choice(["truncate", "truncate", "metadata", "two", "eof_again"])
         if plan_["place"] in ("loop", "macro_param", "reassigned") and delta < 0:
             delta = -delta
         check_wellformed(res, rng, recs, delta, plan_)
